@@ -35,8 +35,16 @@ class ExecCall(ExecExpr):
                 isinstance(node.args[0], (ast.GeneratorExp, ast.ListComp)):
             yield from self.any_all(f.id, node.args[0], st)
             return
-        if any(isinstance(a, ast.Starred) for a in node.args) or any(k.arg is None for k in node.keywords):
+        if any(isinstance(a, ast.Starred) for a in node.args):
             raise EngineError("star arguments")
+        star_kw = [k for k in node.keywords if k.arg is None]
+        if star_kw:
+            # `**kwargs` is supported only when it is provably empty (the forwarding idiom of the library)
+            for k in star_kw:
+                v = self.eval1(k.value, st)
+                if not (isinstance(v, VDict) and not v.items):
+                    raise EngineError("**kwargs with content")
+            node = ast.copy_location(ast.Call(func=node.func, args=node.args, keywords=[k for k in node.keywords if k.arg is not None]), node)
         for s0, fv in self.eval(f, st):
             for s1, args in self.eval_seq(node.args, s0):
                 for s2, kwv in self.eval_seq([k.value for k in node.keywords], s1):
